@@ -104,7 +104,7 @@ Record naction := { na_name : string; na_params : list (string * string) (* name
 Record nproblem := {
   np_types : list (string * string);            (* user type, father ("" = none) *)
   np_objects : list (string * string);          (* object, type *)
-  np_fluents : list (string * list string);     (* fluent, user types of its parameters ("" = not a user type) *)
+  np_fluents : list (string * list (string * string));   (* fluent, its parameters: name, type ("" = not a user type) *)
   np_actions : list naction;
   np_refs : refs;                               (* goals, constraints, initial values, metrics (no parameters) *)
   np_action_refs : list string                  (* actions mentioned by metrics and by the map-back table *)
@@ -130,7 +130,7 @@ Definition wf_np (P : nproblem) : bool :=
   nodupb (all_names P) &&
   forallb (fun t => declared_type P (snd t)) (np_types P) &&
   forallb (fun o => negb (String.eqb (snd o) "") && declared_type P (snd o)) (np_objects P) &&
-  forallb (fun f => forallb (declared_type P) (snd f)) (np_fluents P) &&
+  forallb (fun f => nodupb (map fst (snd f)) && forallb (fun p => declared_type P (snd p)) (snd f)) (np_fluents P) &&
   forallb (fun a => nodupb (map fst (na_params a)) && forallb (fun p => declared_type P (snd p)) (na_params a)
                     && refs_ok P (map fst (na_params a)) (na_refs a)) (np_actions P) &&
   refs_ok P [] (np_refs P) &&
@@ -147,7 +147,8 @@ Definition wf_problem (P : nproblem) : Prop :=
   NoDup (all_names P) /\
   (forall t f, In (t, f) (np_types P) -> f = "" \/ In f (map fst (np_types P))) /\
   (forall o t, In (o, t) (np_objects P) -> t <> "" /\ In t (map fst (np_types P))) /\
-  (forall f sig t, In (f, sig) (np_fluents P) -> In t sig -> t = "" \/ In t (map fst (np_types P))) /\
+  (forall f sig, In (f, sig) (np_fluents P) ->
+     NoDup (map fst sig) /\ (forall p t, In (p, t) sig -> t = "" \/ In t (map fst (np_types P)))) /\
   (forall a, In a (np_actions P) ->
      NoDup (map fst (na_params a)) /\
      (forall p t, In (p, t) (na_params a) -> t = "" \/ In t (map fst (np_types P))) /\
